@@ -45,7 +45,151 @@ func groupY(t *testing.T, rep *ev.Report) []func() {
 			}
 		}
 	}
+	// Y3: the client announces GOAWAY(NO_ERROR) - it will open no more streams - while requests are held at the backend
+	for _, last := range []uint32{0, 1, 3, 1<<31 - 1} {
+		for _, n := range []int{1, 2} {
+			last, n := last, n
+			jobs = append(jobs, func() { clientGoAway(t, rep, last, n) })
+		}
+	}
+	// Z: the backend dies in the middle of a response body (with and without a declared length): the client must not be
+	// shown a complete response
+	for _, proto := range []string{"h1", "h2"} {
+		for _, declared := range []bool{false, true} {
+			for _, after := range []int{1, 3} {
+				proto, declared, after := proto, declared, after
+				jobs = append(jobs, func() { backendDies(t, rep, proto, declared, after) })
+			}
+		}
+	}
 	return jobs
+}
+
+func clientGoAway(t *testing.T, rep *ev.Report, last uint32, n int) {
+	desc := fmt.Sprintf("Y3 %d request(s) held at the backend, then the client sends GOAWAY(last-stream-id=%d, NO_ERROR) and a PING, then the backend answers", n, last)
+	res := bubble.Run(t, func() {
+		var mu sync.Mutex
+		held := []chan struct{}{}
+		e := newEnv(rep, false, func(r *bubble.RecReq) *bubble.RespScript {
+			return &bubble.RespScript{Status: 200, Header: http.Header{"Content-Type": {"application/x-c08"}}, Pieces: [][]byte{[]byte("answer:" + r.Path)}}
+		})
+		if e == nil {
+			return
+		}
+		defer e.close()
+		e.be.Hold = func(r *bubble.RecReq) {
+			ch := make(chan struct{})
+			mu.Lock()
+			held = append(held, ch)
+			mu.Unlock()
+			<-ch
+		}
+		for i := 0; i < n; i++ {
+			e.h2.Headers(uint32(1+2*i), get(fmt.Sprintf("/g%d", i)), true)
+			synctest.Wait()
+		}
+		mu.Lock()
+		nh := len(held)
+		mu.Unlock()
+		if nh != n {
+			rep.HarnessError("%s: %d requests reached the backend", desc, nh)
+			return
+		}
+		e.h2.C.Write(h2wire.GoAway(last, 0, nil))
+		e.h2.C.Write(h2wire.Ping(false, [8]byte{7}))
+		synctest.Wait()
+		mu.Lock()
+		for _, ch := range held {
+			close(ch)
+		}
+		mu.Unlock()
+		synctest.Wait()
+		e.h2.Pump()
+		rep.Add("evaluations", 1)
+		rep.Note("distinct_nontrivial", desc)
+		for i := 0; i < n; i++ {
+			id := uint32(1 + 2*i)
+			r := e.h2.Col.Resps[id]
+			want := fmt.Sprintf("answer:/g%d", i)
+			if r == nil || !r.Ended || r.Status != "200" || string(r.Body) != want {
+				rep.Violate(map[string]any{"kind": "request-in-flight-lost-after-client-goaway", "proto": "h2"}, map[string]any{"desc": desc, "stream": id},
+					"%s: stream %d: client got %s, the backend answered 200 %q", desc, id, summarize(r), want)
+			}
+		}
+	})
+	if res.Panic != nil {
+		rep.HarnessError("%s: panic: %v\n%s", desc, res.Panic, res.Stack)
+	}
+	if res.Hang != "" {
+		rep.Violate(map[string]any{"kind": "hang"}, map[string]any{"hang": res.Hang}, "%s: the exchange never completed: %s", desc, res.Hang)
+	}
+}
+
+func backendDies(t *testing.T, rep *ev.Report, proto string, declared bool, after int) {
+	desc := fmt.Sprintf("Z %s: the backend sends %d of 6 body pieces (declared length: %v) and dies", proto, after, declared)
+	res := bubble.Run(t, func() {
+		pieces := make([][]byte, 6)
+		total := 0
+		for i := range pieces {
+			pieces[i] = pat(3000, byte(i+1))
+			total += 3000
+		}
+		e := newEnv(rep, false, func(r *bubble.RecReq) *bubble.RespScript {
+			if r.Path != "/dies" {
+				return nil
+			}
+			h := http.Header{"Content-Type": {"application/x-c08"}}
+			if declared {
+				h.Set("Content-Length", fmt.Sprint(total))
+			}
+			return &bubble.RespScript{Status: 200, Header: h, Pieces: pieces, AbortAfter: after}
+		})
+		if e == nil {
+			return
+		}
+		defer e.close()
+		rep.Add("evaluations", 1)
+		rep.Note("distinct_nontrivial", desc)
+		complete := false
+		got := 0
+		if proto == "h2" {
+			e.h2.Headers(1, get("/dies"), true)
+			synctest.Wait()
+			e.h2.Pump()
+			if r := e.h2.Col.Resps[1]; r != nil {
+				got = len(r.Body)
+				complete = r.Ended && r.RST == nil
+			}
+		} else {
+			e.h1.SendH1(bubble.Req{Path: "/dies", Host: "localhost"})
+			synctest.Wait()
+			rs := e.h1.TakeH1Responses("GET")
+			if len(rs) == 1 {
+				got = len(rs[0].Body)
+				complete = true // the response parsed as complete: final chunk or the full declared length arrived
+			}
+		}
+		if complete && got < total {
+			rep.Violate(map[string]any{"kind": "truncated-response-shown-complete", "proto": proto, "declared": declared}, map[string]any{"desc": desc, "got": got},
+				"%s: the client was shown a complete response of %d body bytes; the backend's response had %d and was cut off (the end of the stream must not look regular)", desc, got, total)
+		}
+		// the connection (h2) still works for the next request
+		if proto == "h2" {
+			e.h2.Headers(3, get("/after"), true)
+			synctest.Wait()
+			e.h2.Pump()
+			if r := e.h2.Col.Resps[3]; r == nil || !r.Ended || r.Status != "200" || string(r.Body) != "backend:/after" {
+				rep.Violate(map[string]any{"kind": "connection-broken-after-backend-died", "proto": proto}, map[string]any{"desc": desc},
+					"%s: the next request on the same client connection got %s", desc, summarize(r))
+			}
+		}
+	})
+	if res.Panic != nil {
+		rep.HarnessError("%s: panic: %v\n%s", desc, res.Panic, res.Stack)
+	}
+	if res.Hang != "" {
+		rep.Violate(map[string]any{"kind": "hang"}, map[string]any{"hang": res.Hang}, "%s: the exchange never completed: %s", desc, res.Hang)
+	}
 }
 
 func get(path string) []h2wire.HF {
